@@ -6,10 +6,14 @@ package findings
 //	. /verif/env.sh && VERIF_SHOW_KNOWN=1 go test ./findings -run Known -v
 
 import (
+	"bytes"
+	stdjson "encoding/json"
 	"os"
+	"strings"
 	"testing"
 
 	json "github.com/go-json-experiment/json"
+	jsonv1 "github.com/go-json-experiment/json/v1"
 )
 
 func showKnown(t *testing.T) {
@@ -42,5 +46,87 @@ func TestKnownF6DiamondEmbedding(t *testing.T) {
 	}
 	if string(out) != `{}` {
 		t.Errorf("Marshal(Outer{}) = %s; by the documented rules Y and Z are both tied between L.Mid and R.Mid and dropped: want {}", out)
+	}
+}
+
+// ---- C09: v1 differs from the toolchain's encoding/json (recorded, see known_findings.json)
+
+// F8: ill-formed UTF-8 in a Go string: `\ufffd` escape (classic) vs raw U+FFFD (v1).
+func TestKnownF8(t *testing.T) {
+	showKnown(t)
+	b1, _ := stdjson.Marshal("a\xffb")
+	b2, _ := jsonv1.Marshal("a\xffb")
+	if string(b1) != string(b2) {
+		t.Errorf("classic %q, v1 %q", b1, b2)
+	}
+}
+
+type f21TM struct{ V string }
+
+func (t f21TM) MarshalText() ([]byte, error) { return []byte(t.V), nil }
+
+// F21: order of text keys with ill-formed UTF-8.
+func TestKnownF21(t *testing.T) {
+	showKnown(t)
+	v := map[f21TM]int{{"\xed\xa0\x80z"}: 1, {"\xff"}: 2}
+	b1, _ := stdjson.Marshal(v)
+	b2, _ := jsonv1.Marshal(v)
+	norm := func(b []byte) string { return strings.ReplaceAll(string(b), `\ufffd`, "\ufffd") }
+	if norm(b1) != norm(b2) {
+		t.Errorf("classic %s, v1 %s", b1, b2)
+	}
+}
+
+type f22M struct{}
+
+func (f22M) MarshalJSON() ([]byte, error) { return []byte("\"\u2028<\""), nil }
+
+// F22: U+2028 inside MarshalJSON output with SetEscapeHTML(false).
+func TestKnownF22(t *testing.T) {
+	showKnown(t)
+	var b1, b2 bytes.Buffer
+	e1, e2 := stdjson.NewEncoder(&b1), jsonv1.NewEncoder(&b2)
+	e1.SetEscapeHTML(false)
+	e2.SetEscapeHTML(false)
+	e1.Encode([]any{f22M{}})
+	e2.Encode([]any{f22M{}})
+	if b1.String() != b2.String() {
+		t.Errorf("classic %q, v1 %q", b1.String(), b2.String())
+	}
+}
+
+type f24J string
+
+func (s *f24J) UnmarshalJSON(b []byte) error { *s = f24J(b); return nil }
+
+// F24: `,string` on a basic-kind type with UnmarshalJSON.
+func TestKnownF24(t *testing.T) {
+	showKnown(t)
+	type S struct {
+		J f24J `json:",string"`
+	}
+	for _, in := range []string{`{"J":"x"}`, `{"J":1}`} {
+		var a, b S
+		e1, e2 := stdjson.Unmarshal([]byte(in), &a), jsonv1.Unmarshal([]byte(in), &b)
+		if (e1 == nil) != (e2 == nil) || a != b {
+			t.Errorf("%s: classic %+q %v, v1 %+q %v", in, a, e1, b, e2)
+		}
+	}
+}
+
+// F25: json.Number with `,string`: classic does not validate the quoted text.
+func TestKnownF25(t *testing.T) {
+	showKnown(t)
+	for _, in := range []string{`"1 "`, `"null"`, `"0x1"`} {
+		a := struct {
+			N stdjson.Number `json:",string"`
+		}{"7"}
+		b := struct {
+			N jsonv1.Number `json:",string"`
+		}{"7"}
+		e1, e2 := stdjson.Unmarshal([]byte(`{"N":`+in+`}`), &a), jsonv1.Unmarshal([]byte(`{"N":`+in+`}`), &b)
+		if (e1 == nil) != (e2 == nil) || string(a.N) != string(b.N) {
+			t.Errorf("%s: classic %q %v, v1 %q %v", in, a.N, e1, b.N, e2)
+		}
 	}
 }
